@@ -10,7 +10,28 @@ done
 if [ -f translators/t5_cfg.py ]; then
   echo "== translators/t5_cfg.py"; timeout 3000 python3 translators/t5_cfg.py --build .build/lib --out coq/Gen || echo "t5 failed"
 fi
-cd coq
-coq_makefile -f _CoqProject -o Makefile >/dev/null 2>&1
-timeout 7200 make -k -j16 2>&1 | grep -v "^COQC\|^COQDEP\|Closed under the global context" | tail -40
+# generated files that the checks themselves produce at run time (sizes from the harnesses, reset images)
+python3 - <<'PY' || echo "run-time generators failed (their checks will report it)"
+import sys, os
+sys.path.insert(0, os.getcwd())
+from checks import common
+try:
+    from checks import c07
+    c07.prepare("quick", 1)
+except Exception as ex:
+    print("c07.prepare:", repr(ex)[:300])
+try:
+    from checks import c15_gen
+    c15_gen.run_translators()
+    c15_gen.write_reset_images(c15_gen.build_k15())
+except Exception as ex:
+    print("c15_gen:", repr(ex)[:300])
+PY
+python3 - <<'PY'
+import sys, os
+sys.path.insert(0, os.getcwd())
+from checks import common
+ok, out = common.coq_make([], timeout=7200)
+print("\n".join(l for l in out.splitlines() if not l.startswith(("COQC", "COQDEP")) and "Closed under the global context" not in l)[-3000:])
+PY
 exit 0
